@@ -361,7 +361,9 @@ def table_cases(rng, quick):
             out.append(Case('omt_norm', line('omt_norm', O, f, a), oracle=o_norm(f, a), nontrivial=nt, tag=tag, always_oracle=True))
             out.append(Case('omt_inv', line('omt_inv', O, f, a), oracle=o_inv(f, a), nontrivial=nt, tag=tag, always_oracle=True))
         out.append(Case('omt_inv', line('omt_inv', O, f, [0] * n), oracle=o_inv(f, [0] * n), nontrivial=False, tag='tab:inv0', always_oracle=True))
-        if kind != 'equation-reducible' or disc_poly(fr(f)) != 0:
+        # a repeated factor of f (disc f = 0) makes the trace form singular: get_inv_diff is undefined there (unwrap panic),
+        # whatever family the polynomial came from (random non-monic polynomials can have a repeated root too)
+        if disc_poly(fr(f)) != 0:
             out.append(Case('omt_inv_diff', line('omt_inv_diff', O, f), oracle=o_inv_diff(f), nontrivial=nt, tag=tag, always_oracle=True))
         else:
             out.append(Case('omt_inv_diff', line('omt_inv_diff', O, f), nontrivial=False, tag='tab:inv_diff:singular'))
